@@ -87,7 +87,7 @@ def BOUNDS(tier):
 
 def configs(tier):
     c = []
-    for g in ("toy", "GA"):
+    for g in ("toy", "GA") + (("GB", "GD") if tier == "thorough" else ()):
         c.append({"kind": "purity", "gene": g})
         c.append({"kind": "stages", "gene": g})
         c.append({"kind": "candidates", "gene": g})
@@ -95,6 +95,9 @@ def configs(tier):
     # multi-gene loop catches only those, anything else aborts the other genes' results.
     # Real Sample() tail on an empty locus with symbolic neutral depths (shared with C19)
     c.append({"kind": "neutral"})
+    # per-run isolation of genotype(): what a run sees of the gene database depends on its
+    # own arguments only, not on the runs before it
+    c.append({"kind": "isolation"})
     # iteration (hash) order of the variant set in the minor model
     two = [[5060, "A>C"], [5060, "A>G"]]
     for perm in range(4 if tier == "quick" else 11):
@@ -495,6 +498,71 @@ def _replay_candidates(o):
     return len({repr(v) for v in res.values()}) > 1, (
         f"refinement of candidate {o['A']['major']} depends on its company: {res} "
         f"[counts x10 {o['counts']}, threshold {o['thr']}]")
+
+
+# ------------------------------------------------------------------ run isolation
+
+
+def run_isolation(cfg):
+    """sequences of 2-3 genotype() calls with different profile kinds on one gene (real
+    genotype(), stubbed stages): the gene database handed to the structure stage of a run
+    has copy-number calling switched off exactly when that run's own profile is an
+    exome-type profile."""
+    import genoharness
+
+    res = new_result(cfg)
+    eng = Engine(name="c14i")
+    kinds = ["illumina", "exome", "wxs", "wes", "pgx1"]
+    sel = [z3.Int(f"profile{i}") for i in range(3)]
+    n = z3.Int("runs")
+    plan = {"cn": [["1", "1"]], "major": {0: [{"1": 2}]}, "minor": {(0, 0): 1}}
+
+    def run():
+        k = eng.choose(n, (2, 3))
+        seq = [kinds[eng.choose(sel[i], range(len(kinds)))] for i in range(k)]
+        seen = []
+        for pn in seq:
+            h = genoharness.Harness(plan, lambda kind, i: 1.0)
+            try:
+                h.run(profile_name=pn)
+                seen.append(dict(h.seen_gene))
+            except Exception as e:  # noqa
+                seen.append({"error": f"{type(e).__name__}: {e}"})
+        return seq, seen
+
+    k_ = 0
+    for dec, pc, (seq, seen) in eng.explore(run, [], max_paths=10000):
+        k_ += 1
+        bad = [i for i, (pn, s_) in enumerate(zip(seq, seen))
+               if "error" in s_ or s_["do_copy_number"] != (pn not in ("exome", "wxs", "wes"))]
+        ob(res, "isolation: copy-number calling is off exactly in the runs whose own profile "
+                "is an exome-type profile", "holds" if not bad else "sat")
+        if bad:
+            res["violations"].append({
+                "what": f"isolation: profiles {seq}: run {bad[0] + 1} ({seq[bad[0]]}) sees "
+                        f"{seen[bad[0]]}", "key": "isolation",
+                "replay": {"kind": "isolation", "seq": seq}})
+    seen_ = {}
+    for v in res["violations"]:
+        seen_.setdefault(v["key"], v)
+    res["violations"] = list(seen_.values())
+    res["stats"] = {**dict(eng.stats), "paths": k_}
+    res["obligations"] = [{"label": o["label"], "status": o["status"], "secs": 0}
+                          for o in res["obligations"]]
+    return res
+
+
+def replay_isolation(o):
+    import genoharness
+
+    plan = {"cn": [["1", "1"]], "major": {0: [{"1": 2}]}, "minor": {(0, 0): 1}}
+    out = []
+    for pn in o["seq"]:
+        h = genoharness.Harness(plan, lambda kind, i: 1.0)
+        h.run(profile_name=pn)
+        out.append(h.seen_gene["do_copy_number"])
+    want = [pn not in ("exome", "wxs", "wes") for pn in o["seq"]]
+    return out != want, f"profiles {o['seq']}: copy-number calling seen as {out}"
 
 
 # ------------------------------------------------------------------ iteration (hash) order
